@@ -793,6 +793,65 @@ def law_cases(prop, tier, rnd, U):
             num("conv_float", "to_string/parse_float/to_float/to_int", {"str": "to_string!(.x)", "parse": "parse_float!(to_string!(.x))", "tofloat": "to_float!(to_string!(.x))",
                     "toint": "to_int!(.x)", "back": "to_float!(to_int!(.x))", "toint_str": "to_int!(.x)"}, {"x": lfloat(f), "integral": integral},
                 "float" + (":integral" if integral else ""))
+    elif prop == "C26":
+        import struct
+        PU, _, _ = universes("GenProto.tla", os.path.join(WORK, f"{prop}_{tier}" + ("_alt" if os.environ.get("VERIF_REPO", "/repo") != "/repo" else "")),
+                             ["PROTO_SCHEMA", "PROTO_ENUMS", "PROTO_DESC"])
+        schema, enums, desc = PU["PROTO_SCHEMA"], PU["PROTO_ENUMS"], PU["PROTO_DESC"]
+        repo = os.environ.get("VERIF_REPO", "/repo")
+        def lfloat(f):
+            bits = struct.unpack(">Q", struct.pack(">d", f))[0]
+            return {"t": "float", "b": [(bits >> 48) & 0xffff, (bits >> 32) & 0xffff, (bits >> 16) & 0xffff, bits & 0xffff]}
+        STR = ["", "a", "é😀", "x y", "\"q\"", "0", "a" * 40]
+        def scalar(f, allow_default):
+            t = f["t"]
+            if t == "int32":
+                return lint(rnd.choice(([0] if allow_default else []) + [1, -1, 2**31 - 1, -2**31, rnd.randint(-10**6, 10**6)]))
+            if t == "int64":
+                return lint(rnd.choice(([0] if allow_default else []) + [1, -1, 2**63 - 1, -2**63, rnd.getrandbits(64) - 2**63]))
+            if t == "uint32":
+                return lint(rnd.choice(([0] if allow_default else []) + [1, 2**32 - 1, rnd.getrandbits(32)]))
+            if t == "uint64":
+                return lint(rnd.choice(([0] if allow_default else []) + [1, 2**63 - 1, rnd.getrandbits(63)]))
+            if t == "double":
+                return lfloat(rnd.choice(([0.0] if allow_default else []) + [1.5, -2.25, 1e300, 5e-324, 0.1, -0.0 if allow_default else 3.0]))
+            if t == "float":
+                return lfloat(rnd.choice(([0.0] if allow_default else []) + [1.5, -2.25, 0.5, 16777216.0, 3.0]))
+            if t == "string":
+                return lstr(rnd.choice(STR if allow_default else STR[1:]))
+            if t == "bytes":
+                return rnd.choice([{"t": "bytes", "c": [0, 255, 128]}, {"t": "bytes", "c": [195]}, lstr("ab")] + ([lstr("")] if allow_default else []))
+            if t == "bool":
+                return {"t": "bool", "v": rnd.random() < 0.5 if allow_default else True}
+            if t == "enum":
+                names = enums[f["of"]]
+                return lstr(rnd.choice(names if allow_default else names[1:]))
+            if t == "timestamp":
+                return {"t": "ts", "s": rnd.choice(["2021-02-03T04:05:06.000000000Z", "1970-01-01T00:00:01.000000000Z", "2038-01-19T03:14:08.123456789Z", "1969-12-31T23:59:59.500000000Z"])}
+            if t == "msg":
+                return message(f["of"], 2)
+            raise KeyError(t)
+        def message(ty, depth):
+            m = {}
+            for fn, f in schema[ty].items():
+                if rnd.random() < 0.25:
+                    continue
+                if f["card"] == "rep":
+                    m[fn] = larr([scalar(f, True) for _ in range(rnd.randint(0, 3))])
+                elif f["card"] == "map":
+                    m[fn] = lobj({k: scalar(f, True) for k in rnd.sample(["a", "b", "é", "k 1", ""], rnd.randint(0, 3))})
+                else:
+                    m[fn] = scalar(f, True)
+            return lobj(m)
+        tops = [t for t in schema if not t.startswith("google.") and not t.endswith(".PhoneNumber") and not t.endswith(".EmbeddedMessage") and t != "test.v1.Map.Person"]
+        for ty in tops:
+            pkg = ty.rsplit(".", 1)[0] if ty.count(".") == 2 else ".".join(ty.split(".")[:2])
+            path = os.path.join(repo, desc[pkg])
+            for _ in range(60 if tier == "quick" else 1500):
+                x = message(ty, 2)
+                add("proto_roundtrip", f"encode_proto/parse_proto({ty})",
+                    {"enc": f'encode_proto!(.x, "{path}", "{ty}")', "dec": f'parse_proto!(encode_proto!(.x, "{path}", "{ty}"), "{path}", "{ty}")'},
+                    {"x": x, "type": ty, "shape": ty})
     return cases
 
 
